@@ -133,6 +133,10 @@ REAL_CFG = [
     dict(salt="x", suffix=31, prefixes=["0.0.0.0/0"], addrs=None),
     dict(salt="y", suffix=12, prefixes=["10.1.2.3/32", "10.0.0.0/8", "10.1.0.0/16"], addrs=["192.168.0.0/16", "8.8.8.8"]),
     dict(salt="z", suffix=1, prefixes=["128.0.0.0/1"], addrs=["10.0.0.0/8", "172.16.0.0/12", "192.168.0.0/16"]),
+    # nested prefixes sharing a base address, both orders; preserved blocks nested in default prefixes
+    dict(salt="n1", suffix=4, prefixes=["10.0.0.0/8", "10.0.0.0/16", "10.0.0.0/24"], addrs=None),
+    dict(salt="n2", suffix=0, prefixes=["10.0.0.0/24", "10.0.0.0/8"], addrs=["10.0.0.0/30"]),
+    dict(salt="n3", suffix=8, prefixes=None, addrs=["192.168.0.0/24", "10.0.0.0/24", "172.16.0.0/16", "0.0.0.0/8"]),
 ]
 
 
@@ -353,6 +357,31 @@ def c05():
                      "IpAnonymizer.__init__")
 
 
+def c_text_consistency(tag):
+    """What is written for an address in text equals the integer mapping, except for masks and members of
+    preserved networks (left as written); block boundaries and their neighbours in particular."""
+    ms = set(masks())
+    for c in REAL_CFG:
+        an = mk4(c)
+        ref = mk4(c)
+        nets = [ipaddress.ip_network(n) for n in (c["addrs"] or [])]
+        pts = [RNG.getrandbits(32) for _ in range(20 if TIER == "quick" else 400)]
+        allnets = nets + [ipaddress.ip_network(p) for p in (c["prefixes"] if c["prefixes"] is not None
+                                                            else IpAnonymizer.DEFAULT_PRESERVED_PREFIXES)]
+        for net in allnets:
+            base, size = int(net.network_address), net.num_addresses
+            pts += [x % 2 ** 32 for x in (base - 1, base, base + 1, base + size - 1, base + size, base + size + 1)]
+        for a in pts:
+            txt = str(ipaddress.IPv4Address(a))
+            out = anonymize_ip_addr(an, "x %s y" % txt)
+            note((tag, c["salt"], c["suffix"], a))
+            keep = a in ms or any(ipaddress.IPv4Address(a) in n for n in nets)
+            exp = txt if keep else str(ipaddress.IPv4Address(ref.anonymize(a)))
+            if out != "x %s y" % exp:
+                fail(tag, {"config": c, "address": txt, "output": out, "expected": "x %s y" % exp},
+                     "text-level replacement differs from the address mapping / preservation rule", "should_anonymize")
+
+
 def c17():
     for c in REAL_CFG:
         a4, a6 = mk4(c), mk6(c)
@@ -362,6 +391,12 @@ def c17():
             a = RNG.getrandbits(32)
             ln = "ip %s x %s\n" % (ipaddress.IPv4Address(a), ipaddress.IPv6Address(RNG.getrandbits(128)))
             text.append(ln)
+        # a second file mixes in addresses that are images of earlier ones (an already-anonymized config)
+        imgs = []
+        for ln in text[:10]:
+            pre4, pre6 = mk4(c), mk6(c)
+            imgs.append(anonymize_ip_addr(pre4, anonymize_ip_addr(pre6, ln)))
+        text = imgs + text + imgs
         for ln in text:
             o = anonymize_ip_addr(a4, anonymize_ip_addr(a6, ln))
             for w_in, w_out in zip(ln.split(), o.split()):
@@ -388,7 +423,8 @@ def c17():
                      "dump_to_file")
 
 
-CHECKS = {"C01": [c01_tiny, c01_real], "C02": [c02], "C03": [c03], "C04": [c04], "C05": [c05], "C17": [c17]}
+CHECKS = {"C01": [c01_tiny, c01_real, lambda: c_text_consistency("C01.text")], "C02": [c02], "C03": [c03], "C04": [c04],
+          "C05": [c05, lambda: c_text_consistency("C05.text")], "C17": [c17]}
 BOUNDS = {
     "C01": "real base class at widths 1..4 (quick) / 1..5 (thorough), salter truth tables (all for width<=3), all host-bit counts, "
            "5 seed sets, all address pairs; real IpAnonymizer/IpV6Anonymizer: 7 configurations x every common-prefix length x 2/20 pairs",
@@ -409,7 +445,7 @@ def guarded(f):
         tb = traceback.extract_tb(sys.exc_info()[2])
         where = [fr for fr in tb if "netconan" in fr.filename]
         loc = "%s:%d" % (where[-1].filename.split("/")[-1], where[-1].lineno) if where else ""
-        fail(ARGS["property"] + ".exception", {"check": f.__name__, "last_case": LAST[0]},
+        fail(ARGS["property"] + ".exception", {"check": getattr(f, "__name__", "check"), "last_case": LAST[0]},
              "%s: %s at %s" % (type(e).__name__, e, loc), "safe")
 
 
